@@ -116,6 +116,15 @@ class SV(float):
 
     __array_ufunc__ = None  # numpy must not coerce this float subclass; arrays are mapped elementwise below
 
+    def __copy__(self):
+        return self  # immutable
+
+    def __deepcopy__(self, memo):
+        return self
+
+    def __reduce_ex__(self, protocol):
+        raise Inconclusive("pickling a symbolic value")
+
     # -- arithmetic --
     def _bin(self, o, f, rev=False):
         if _is_ndarray(o):
@@ -390,6 +399,12 @@ class CV(complex):
         return self.im
 
     __array_ufunc__ = None
+
+    def __copy__(self):
+        return self
+
+    def __deepcopy__(self, memo):
+        return self
 
     @staticmethod
     def lift(o):
